@@ -15,7 +15,10 @@ def gen_case(rng, kind=None, rules=False):
     kind = kind or rng.choice(["ssa", "ssa", "dssa", "vssa", "dvssa"])
     ma_only = rng.random() < 0.5
     kinds = ("massaction",) if ma_only else ("massaction",) + tuple(G.HILL) + ("general",)
-    spec = G.gen_network(rng, kinds=kinds, nrx=(1, 4), nsp=(1, 4), allow_delay=(kind in ("dssa", "dvssa") or rng.random() < 0.25), max_order=3, integer_state=True, bounded=True,   # delayed parts in the other simulators too: applied at once (S3_C05)
+    # mostly small networks; one in seven has 9 to 19 reactions (the total propensity and the selection then run over long arrays --
+    # seeded change S6_C05: a pairwise array sum that dropped the last element of odd blocks longer than 8)
+    many = rng.random() < 0.14
+    spec = G.gen_network(rng, kinds=kinds, nrx=((9, 19) if many else (1, 4)), nsp=((3, 5) if many else (1, 4)), allow_delay=(kind in ("dssa", "dvssa") or rng.random() < 0.25), max_order=3, integer_state=True, bounded=True,   # delayed parts in the other simulators too: applied at once (S3_C05)
                          general_pool=["kg*%s", "kg*%s/(1+%s)", "kg+%s*0", "kg*%s*%s"])
     # keep event counts moderate
     for k in list(spec["parameters"]):
@@ -40,6 +43,9 @@ def gen_case(rng, kind=None, rules=False):
     if kind == "dvssa" and rng.random() < 0.5:
         case["volume"] = {"type": "tt", "cycle": rng.choice([1.0, 2.0, 4.0]), "avg": rng.choice([1.3, 2.0, 50.0]), "noise": rng.choice([0.0, 0.1]), "V0": 1.0}
     if rng.random() < 0.3: case["warmup"] = True       # a throwaway run on the same model / interface first
+    # reactions with equal parameter dictionaries handed to the Model as ONE dict object (rate = {"k": 0.7} reused in several
+    # tuples): the model must not write into it (seeded change S6_C06)
+    if rng.random() < 0.3: spec["shared_param_dicts"] = True
     if rng.random() < 0.15: case["strided_grid"] = True  # the grid as a non-contiguous numpy view (S5_C05)
     # a user-made delay queue shorter than the simulated span, with a column count that is no power of two: the ring wraps (S5_C06)
     if kind in ("dssa", "dvssa") and rng.random() < 0.3: case["queue_cols"] = rng.choice([c_ for c_ in (3, 5, 6, 7) if c_ < n] or [n])
@@ -131,5 +137,6 @@ def stats(cases):
     return {"simulators": dict(Counter(c["kind"] + ("+safe" if c["safe"] else "") for c in cases)),
             "kinds": dict(Counter(rx["type"] for c in cases for rx in c["spec"]["reactions"])),
             "grids_starting_after_t0": sum(1 for c in cases if c["times"][0] > 0), "with_warmup_run": sum(1 for c in cases if c.get("warmup")),
-            "grids_passed_as_strided_views": sum(1 for c in cases if c.get("strided_grid")), "queues_shorter_than_the_span": sum(1 for c in cases if c.get("queue_cols"))}
+            "grids_passed_as_strided_views": sum(1 for c in cases if c.get("strided_grid")), "queues_shorter_than_the_span": sum(1 for c in cases if c.get("queue_cols")),
+            "networks_with_9_or_more_reactions": sum(1 for c in cases if len(c["spec"]["reactions"]) >= 9), "models_given_shared_parameter_dict_objects": sum(1 for c in cases if c["spec"].get("shared_param_dicts"))}
 def key(case): return json.dumps([case["spec"], case["kind"], case["safe"], case["times"], case["seed"]], sort_keys=True)
